@@ -331,6 +331,7 @@ type replFaultClient struct {
 }
 
 type replWorld struct {
+	preloaded int // keys written by `preload` so far
 	r       *runner
 	base    string
 	cfgLine string
@@ -812,7 +813,7 @@ func (w *replWorld) step(ws []string) (out string) {
 			out = "panic " + strings.ReplaceAll(fmt.Sprint(p), " ", "_")
 		}
 	}()
-	if ws[0] != "cfg" && ws[0] != "primary" && w.prim == nil {
+	if ws[0] != "cfg" && ws[0] != "primary" && ws[0] != "preload" && w.prim == nil {
 		return "err no-primary"
 	}
 	if w.cause != "" && w.cause != "send" && ws[0] != "verdict" {
@@ -852,6 +853,33 @@ func (w *replWorld) step(ws []string) (out string) {
 			n.fe.mu.Unlock()
 		} else {
 			n.arm[string(unhx(ws[2]))] = true
+		}
+		return "ok"
+	case "preload": // preload <n> <vlen> <flush>: BEFORE `primary`: an earlier run of the primary's engine writes n keys, flushes (log rotation) or not, and closes
+		if w.prim != nil {
+			return "err primary-running"
+		}
+		n, _ := strconv.Atoi(ws[1])
+		vlen, _ := strconv.Atoi(ws[2])
+		e, err := replOpenEngine(filepath.Join(w.base, "primary"), w.cfg("mem", 0), w.cfg("prod", 0) == 1)
+		if err != nil {
+			return "err open " + errTok(err)
+		}
+		for i := 0; i < n; i++ {
+			w.preloaded++
+			if err := e.Put([]byte(fmt.Sprintf("pre%05d", w.preloaded)), bytes.Repeat([]byte{byte('a' + w.preloaded%26)}, vlen)); err != nil {
+				e.Close()
+				return "err put " + errTok(err)
+			}
+		}
+		if ws[3] == "1" {
+			if err := e.FlushImMemTables(); err != nil {
+				e.Close()
+				return "err flush " + errTok(err)
+			}
+		}
+		if err := e.Close(); err != nil {
+			return "err close " + errTok(err)
 		}
 		return "ok"
 	case "slowapply": // slowapply <replica> <key> <ms>: the next replicated put of this key on that (running) replica takes <ms>
@@ -1352,6 +1380,9 @@ func (g *gen) replSmallKV() (string, string) {
 func replGenMixedOps(g *gen, w *bufio.Writer, n int, withDeletes bool) {
 	for i := 0; i < n; i++ {
 		k, v := g.replSmallKV()
+		if g.chance(1, 25) {
+			k = "=" // the empty key is a key like any other (its delete is the shortest entry there is)
+		}
 		if withDeletes && g.chance(1, 4) {
 			fmt.Fprintln(w, join("del", k))
 		} else {
@@ -1378,7 +1409,7 @@ func replGenTx(g *gen, w *bufio.Writer, m int) {
 	fmt.Fprintln(w, strings.Join(parts, " "))
 }
 
-var replClassesQuick = []string{"after", "before", "during", "restart", "stopstorm", "stopapply", "two", "tx1", "prod", "txmulti", "rotate", "onelate", "cleancatchup", "cleanpush", "sustained", "txcut", "bigvalues", "applyfail", "bigvalues"}
+var replClassesQuick = []string{"after", "before", "during", "restart", "stopstorm", "stopapply", "preflush", "two", "tx1", "prod", "txmulti", "rotate", "onelate", "cleancatchup", "cleanpush", "sustained", "txcut", "bigvalues", "applyfail", "bigvalues"}
 var replClassesThorough = append(append([]string{}, replClassesQuick...), "after", "before", "during", "restart", "txmulti", "rotatemem", "txsplit", "mixed")
 
 func genRepl(g *gen, n int, tier string, w *bufio.Writer) {
@@ -1495,6 +1526,21 @@ func genReplCase(g *gen, w *bufio.Writer, class string, big bool) {
 		replGenMixedOps(g, w, 40+g.intn(40), true)
 		fmt.Fprintf(w, "burst %d 0 %d\n", 20+g.intn(100), 8+g.intn(40))
 		fmt.Fprintln(w, "join a")
+		fmt.Fprintln(w, "await a")
+	case "preflush": // the primary's history spans several log files BEFORE replication starts (written, flushed and closed by an
+		// earlier run of the engine): a replica catching up in messages of 100 entries crosses the file boundaries, and its
+		// cursor lands on, right before and right behind the last number of a closed file
+		fmt.Fprintf(w, "cfg class=%s expect=converge retry=%d bound=%d hard=150 \n", class, retry, bound)
+		first := g.pick(101, 101, 201) // the first closed file ends exactly one entry behind a 100-entry message: the cursor lands on its last number
+		fmt.Fprintf(w, "preload %d %d 1\n", first, 4+g.intn(12))
+		if g.chance(1, 2) {
+			fmt.Fprintf(w, "preload %d %d %d\n", g.pick(99, 100, 101, 102, 10+g.intn(150)), 4+g.intn(12), g.intn(2))
+		}
+		fmt.Fprintln(w, "primary")
+		replGenMixedOps(g, w, 5+g.intn(20), true)
+		fmt.Fprintln(w, "join a")
+		fmt.Fprintln(w, "await a")
+		replGenMixedOps(g, w, 5+g.intn(20), true)
 		fmt.Fprintln(w, "await a")
 	case "stopapply": // the replica is stopped exactly while its loop is inside the apply handler (a slow apply), then started again
 		hdr("converge", "")
